@@ -29,6 +29,7 @@ import Bng.Model.KeyEnc
     kf mac <6B>                                           => go=<MACToUint64 LE> c.dhcp=<…> c.antispoof=<…>
     kf vlan <s> <c|-> <pcp1> <dei1> <pcp2> <dei2>         => go=<key written by AddVLANSubscriber> c=<key looked up>
     kf ip <4B> | kf fnv <hex> | kf alg <port> <proto>     => go=<…> [c=<…>]
+    kf macn <hardware address, 0..20 bytes>               => go:<pkg.func>=<key|panic> … back:<pkg.func>=<6B> … c.dhcp= c.antispoof=
     nput <map> <keyType> <valType> k=<leaf,…> <GoField>=<n|x…> …  => v=<hex> c.<member>=<n|x…> …   (verdict `field`)
     cfg antispoof setmode <n>                             => v=<hex> c.default_mode=<n> c.log_violations=<n>
     pget <map> <keyType> <valType> rawv=<hex>             => v=<leaf,…>
@@ -558,6 +559,50 @@ def doKf (toks : List String) (impl : String) : LineResult :=
         viols := goVsModel "MACToUint64" mh (tok impl "go") go ++
           goVsC "MAC key (subscriber_pools)" mh (tok impl "go") (tok impl "c.dhcp") ++
           goVsC "MAC key (subscriber_bindings)" mh (tok impl "go") (tok impl "c.antispoof") }
+    | none => { modelObs := "badop" }
+  | ["kf", "macn", mh] =>
+    -- every MAC conversion the translator found in the repository, on a hardware address of any length
+    match parseHexBytes mh with
+    | some mac =>
+      let key (n : Nat) := hexOf (u64KeyBytes n)
+      -- the model of each Go conversion, by name; a conversion without a model is a DIFF ("unmodelled")
+      let fwd : String → Option (Option Nat) := fun f =>
+        if f == "pkg/ebpf.MACToUint64" || f == "pkg/walledgarden.macToUint64" then some (some (macU64GoLoop mac))
+        else if f == "pkg/antispoof.macToUint64" then some (macU64ShiftL mac)
+        else none
+      let showFwd := fun (r : Option (Option Nat)) => match r with
+        | some (some n) => key n
+        | some none => "panic"
+        | none => "unmodelled"
+      let pairOf := fun (b : String) =>
+        if b == "pkg/ebpf.Uint64ToMAC" then "pkg/ebpf.MACToUint64"
+        else if b == "pkg/walledgarden.uint64ToMAC" then "pkg/walledgarden.macToUint64" else "?"
+      let showBack := fun (b : String) => match fwd (pairOf b) with
+        | some (some n) => hexOf (u64ToMac n)
+        | some none => "panic"
+        | none => "unmodelled"
+      let c := key (macU64COf mac)
+      let model := " ".intercalate (
+        (macToU64Funcs.map fun f => s!"go:{f}={showFwd (fwd f)}") ++
+        (u64ToMacFuncs.map fun b => s!"back:{b}={showBack b}") ++ [s!"c.dhcp={c}", s!"c.antispoof={c}"])
+      -- the property, for a real hardware address (six bytes or more): every conversion yields the key the programs
+      -- derive = the big-endian number of the FIRST six bytes, and the reverse gives those six bytes back
+      let want := key (macKey6 mac)
+      let viols : List Verdict :=
+        if mac.length < 6 then
+          macToU64Funcs.flatMap fun f => goVsModel s!"{f} (short address, {mac.length} bytes)" mh (tok impl ("go:" ++ f)) (showFwd (fwd f))
+        else
+          (macToU64Funcs.flatMap fun f =>
+            let got := tok impl ("go:" ++ f)
+            (if got == want then [] else
+              [("key", "none", s!"{f}: key of the {mac.length}-byte hardware address {mh} is {got}, the first-six-bytes key is {want}")]) ++
+            (if got == tok impl "c.dhcp" && got == tok impl "c.antispoof" then [] else
+              [("key", "none", s!"{f}: key {got} for {mh} differs from the kernel's mac_to_u64 (dhcp {tok impl "c.dhcp"}, antispoof {tok impl "c.antispoof"})")])) ++
+          (u64ToMacFuncs.flatMap fun b =>
+            let got := tok impl ("back:" ++ b)
+            if got == hexOf (mac.take 6) then [] else
+              [("key", "none", s!"{b}∘{pairOf b}: {mh} comes back as {got}, not as its first six bytes {hexOf (mac.take 6)}")])
+      { modelObs := model, viols := viols }
     | none => { modelObs := "badop" }
   | ["kf", "vlan", ss, cs, p1, d1, p2, d2] =>
     match ss.toNat?, p1.toNat?, d1.toNat?, p2.toNat?, d2.toNat? with
